@@ -516,10 +516,10 @@ func (ck *checker) rpcService(group string, ids, servers []string, prefixMenu []
 						class = "answered/stripped-empty-prefix"
 					}
 				default:
-					// matched by regex / list only while stripping is on:
-					// the statement does not say what the handler sees
-					judged = false
-					class = "answered/undefined(strip on, matched by regex or list only): " + sawClass(seen, id)
+					// matched by regex / list only while stripping is on: no
+					// prefix was matched, so nothing is removed - and a
+					// registration that answers must be reachable
+					wantSeen, class = id, "answered/strip-on-matched-by-regex-or-list-only"
 				}
 				if !judged {
 					ck.acc.Case(group, caseKey, nt, class)
@@ -726,8 +726,8 @@ func (ck *checker) httpHandler(paths, methods []string) {
 						class = "answered/stripped-empty-prefix"
 					}
 				default:
-					judged = false
-					class = "answered/undefined(strip on, matched by regex only): " + sawClass(seen, p)
+					// matched by the regex only: no prefix to remove, the request arrives unchanged
+					wantSeen, class = p, "answered/strip-on-matched-by-regex-only"
 				}
 				if !judged {
 					ck.acc.Case(group, caseKey, nt, class)
